@@ -760,7 +760,8 @@ def arith_exprs(max_depth=4):
 
 def _arith_exprs(max_depth):
     """Arithmetic-heavy, constant-rich trees: every binary and unary arithmetic operator, many operator
-    applications on two constants (folding candidates), variables i j n f s l, a few non-arithmetic operators."""
+    applications on two constants (folding candidates), variables i j n f s l, a few non-arithmetic operators,
+    subscripts and slices of strings / lists whose index and bounds are signed literals and variables (x[-1], x[::-1])."""
     import hypothesis.strategies as st
 
     pct100 = _ints(0, 99)
@@ -784,11 +785,41 @@ def _arith_exprs(max_depth):
                 return _const(pick([0.5, 1.5, 2.0, 0.0, 3.25]))
             return _const(draw(_ints(0, 9)))
 
+        def index():
+            """Subscript / slice-bound expressions: signed integer literals (x[-1], x[::-1]), signed variables, small sums."""
+            k = pick(["neg_lit", "neg_lit", "lit", "neg_var", "var", "pos_lit", "diff", "neg_paren"])
+            if k == "neg_lit":
+                return ["unary", "-", _const(draw(_ints(1, 3)))]
+            if k == "lit":
+                return _const(draw(_ints(0, 2)))
+            if k == "neg_var":
+                return ["unary", "-", ["name", "n"]]
+            if k == "var":
+                return ["name", "n"]
+            if k == "pos_lit":
+                return ["unary", "+", _const(draw(_ints(0, 2)))]
+            if k == "diff":
+                return ["bin", pick(["-", "+"]), _const(draw(_ints(0, 2))), _const(draw(_ints(0, 2)))]
+            return ["unary", "-", ["paren", _const(draw(_ints(0, 2)))]]
+
+        def slice_of(obj):
+            parts = [index() if chance(55) else None for _ in range(3)]
+            if parts[2] is not None and chance(50):
+                parts[2] = ["unary", "-", _const(1)]   # [::-1]; a step of 0 is only a ValueError
+            return ["slice", obj] + parts
+
+        def seq_literal():
+            return ["list", [_const(draw(_ints(0, 9))) for _ in range(draw(_ints(1, 4)))]]
+
         def g(ty, d):
             if d <= 0 or chance(12):
                 return leaf(ty)
             if ty == "str":
-                k = pick(["repeat", "add", "fmt", "concat", "leaf"])
+                k = pick(["repeat", "add", "fmt", "concat", "leaf", "slice", "item"])
+                if k == "slice":
+                    return slice_of(g("str", d - 1) if chance(50) else _const(pick(["abcd", "xyz", "hello"])))
+                if k == "item":
+                    return ["item", _const(pick(["abcd", "xyz"])) if chance(60) else g("str", d - 1), index()]
                 if k == "repeat":
                     return ["bin", "*", g("str", d - 1), _const(draw(_ints(0, 3)))]
                 if k == "add":
@@ -799,13 +830,18 @@ def _arith_exprs(max_depth):
                     return ["concat", [g(pick(["num", "str"]), d - 1), g(pick(["num", "str"]), d - 1)]]
                 return leaf("str")
             if ty == "list":
-                k = pick(["add", "repeat", "leaf"])
+                k = pick(["add", "repeat", "leaf", "slice"])
+                if k == "slice":
+                    return slice_of(g("list", d - 1) if chance(50) else seq_literal())
                 if k == "add":
                     return ["bin", "+", g("list", d - 1), g("list", d - 1)]
                 if k == "repeat":
                     return ["bin", "*", g("list", d - 1), _const(draw(_ints(0, 2)))]
                 return leaf("list")
-            k = pick(["bin"] * 8 + ["unary", "unary", "pow", "cond", "filter", "call", "andor", "len", "paren", "cmpcond"])
+            k = pick(["bin"] * 8 + ["unary", "unary", "pow", "cond", "filter", "call", "andor", "len", "paren", "cmpcond",
+                      "item", "item"])
+            if k == "item":
+                return ["item", seq_literal() if chance(60) else g("list", d - 1), index()]
             if k == "bin":
                 return ["bin", pick(["+", "-", "*", "/", "//", "%"]), g("num", d - 1), g("num", d - 1)]
             if k == "unary":
